@@ -44,6 +44,16 @@ class C(P):
     c: Set[int] = Attr(default_factory=set)
     a = 5
 """, ["P", "C"], {"P": "none", "C": "P"}),
+    "lazy_parent_split": ("""
+{D}
+class P:
+    a: int = Attr(default=1, repr=False)
+    b: List[int] = Attr(default_factory=list)
+
+{D}
+class C(P):
+    c: Set[int] = Attr(default_factory=set)
+""", ["P", "C"], {"P": "none", "C": "P"}),
     "own_new": ("""
 {D}
 class C:
@@ -62,6 +72,22 @@ class C:
 
 class D(C):
     x = 9
+""", ["C"], {"C": "none"}),
+    # __new__ inherited from ANOTHER base of a plain subclass: the lazy hook must stay cooperative once it has removed itself
+    "mixin_new": ("""
+class Mixin:
+    def __new__(cls, *args, **kwargs):
+        self = super().__new__(cls)
+        self.__dict__["made_by_mixin"] = True
+        return self
+
+{D}
+class C:
+    x: int = Attr(default=7)
+    items: List[str] = Attr(default_factory=list)
+
+class D(C, Mixin):
+    pass
 """, ["C"], {"C": "none"}),
     "keyed_nested": ("""
 {D}
@@ -85,6 +111,15 @@ def build(name, eager):
     ns = {"__name__": f"scn_{name}"}
     exec(HEADER + textwrap.dedent(src).replace("{D}", "@spec_class(bootstrap=True)" if eager else "@spec_class"), ns)
     return ns, classes, parent
+
+
+def inst_obs(ns, tgt):
+    """What constructing instances looks like (of the class, and of its plain subclass D where the scenario has one)."""
+    out = repr(ns[tgt]())
+    if "D" in ns and tgt == "C":
+        d = ns["D"]()
+        out += " | D: " + repr(d) + " " + repr(sorted(k for k in d.__dict__ if not k.startswith("__")))
+    return out
 
 
 def describe(cls):
@@ -161,6 +196,8 @@ def run_execution(name, triggers, policy, eager_ref):
     target = "C"
 
     def mk(i, trig):
+        tgt = "P" if trig.startswith("p") else target          # the class this thread uses (and then observes)
+
         def fn():
             C = ns[target]
             if trig == "inst":
@@ -171,9 +208,13 @@ def run_execution(name, triggers, policy, eager_ref):
                 C.__dataclass_fields__
             elif trig == "sub":
                 ns["D"]()
-            obs.observe(i, target)
+            elif trig == "pinst":          # first use of the (lazy) PARENT while another thread first-uses the child
+                ns["P"]()
+            elif trig == "pmeta":
+                ns["P"].__spec_class__
+            obs.observe(i, tgt)
             with sched.atomic():        # the observation itself is taken in one step
-                return {"desc": describe(C), "inst": repr(C())}
+                return {"desc": describe(ns[tgt]), "inst": inst_obs(ns, tgt)}
         return fn
 
     s = sched.Sched([mk(i, t) for i, t in enumerate(triggers)], policy, obs).run()
@@ -196,8 +237,10 @@ def run_execution(name, triggers, policy, eager_ref):
             threads.append({"t": f"t{i}", "trigger": triggers[i], "outcome": "ok", "desc": common.digest(r[1]["desc"]), "inst": r[1]["inst"]})
         else:
             threads.append({"t": f"t{i}", "trigger": triggers[i], "outcome": str((r[1] if r and r[1] else (r[0] if r else "none")))[:120], "desc": "", "inst": ""})
+        want = eager_ref[2]["P" if triggers[i].startswith("p") else target]          # what the eager, sequential class of that name looks like
+        threads[-1]["want_desc"], threads[-1]["want_inst"] = common.digest(want[0]), want[1]
     try:
-        final_desc, final_inst = common.digest(describe(ns[target])), repr(ns[target]())
+        final_desc, final_inst = common.digest(describe(ns[target])), inst_obs(ns, target)
     except Exception as e:  # noqa: BLE001
         final_desc, final_inst = "raised:" + type(e).__name__, ""
     decls = {c: {k: v for k, v in obs.initial[c].items() if k.startswith("decl:") and v == "declared"} for c in classes}
@@ -212,7 +255,7 @@ def run_execution(name, triggers, policy, eager_ref):
 def eager_reference(name):
     ns, classes, _ = build(name, eager=True)
     C = ns["C"]
-    return describe(C), repr(C())
+    return describe(C), inst_obs(ns, "C"), {c: (describe(ns[c]), inst_obs(ns, c)) for c in ("C", "P") if c in ns}
 
 
 SHARED_FUNCS = {"bootstrap", "build_attr_spec", "__get__", "__call__", "__new__", "for_class", "register_method", "register_methods",
